@@ -69,7 +69,7 @@ func clone(v interface{}) interface{} {
 }
 
 // EditKinds are the structural edits applied at a pointer.
-var EditKinds = []string{"delete", "null", "string", "number", "bool", "array", "object", "rename-empty", "rename-dotted", "rename-sibling", "ref-nowhere", "ref-sibling", "ref-xsibling", "transplant", "dup-into-array"}
+var EditKinds = []string{"delete", "null", "string", "number", "bool", "array", "object", "rename-empty", "rename-dotted", "rename-sibling", "ref-nowhere", "ref-sibling", "ref-xsibling", "name-dotted", "transplant", "dup-into-array"}
 
 // Edit is one structural edit.
 type Edit struct {
@@ -188,6 +188,16 @@ func Apply(doc interface{}, e Edit) interface{} {
 		}
 		m["description"] = "sibling of a reference"
 		m["default"] = "d"
+	case "name-dotted":
+		// a parameter / header / property NAME (a value, not a key) made of repeated dotted segments
+		m, ok := cur.(map[string]interface{})
+		if !ok {
+			return nil
+		}
+		if _, has := m["name"].(string); !has {
+			return nil
+		}
+		m["name"] = []string{"a.a", "user.user", "x.y.y"}[len(m)%3]
 	case "ref-xsibling":
 		// a vendor-extension-like sibling next to an existing reference (a JSON reference admits no sibling at all)
 		m, ok := cur.(map[string]interface{})
